@@ -240,6 +240,10 @@ type monitoredConn struct {
 	conn     *grpc.ClientConn
 	gme      *GCPMultiEndpoint
 	cancel   context.CancelFunc
+
+	// wake ends the monitor's current wait for a state change, if any.
+	// Written by notify holding gme.mu for reading, called holding gme.mu for writing.
+	wake context.CancelFunc
 }
 
 func newMonitoredConn(endpoint string, conn *grpc.ClientConn, gme *GCPMultiEndpoint) (mc *monitoredConn) {
@@ -257,11 +261,12 @@ func newMonitoredConn(endpoint string, conn *grpc.ClientConn, gme *GCPMultiEndpo
 // notify reads the state of the connection and reports it to all multiendpoints. The state
 // is read under the same lock that UpdateMultiEndpoints holds while it reports the states
 // of the pools: a state sampled before waiting for that lock would be reported after the
-// newer one and undo it.
-func (mc *monitoredConn) notify() connectivity.State {
+// newer one and undo it. wake is kept for UpdateMultiEndpoints, see monitor.
+func (mc *monitoredConn) notify(wake context.CancelFunc) connectivity.State {
 	mc.gme.mu.RLock()
 	defer mc.gme.mu.RUnlock()
 	state := mc.conn.GetState()
+	mc.wake = wake
 	mc.reportLocked(state)
 	return state
 }
@@ -282,12 +287,18 @@ func (mc *monitoredConn) reportLocked(state connectivity.State) {
 	}
 }
 
+// monitor reports the state of the connection and waits until the connection leaves that
+// state, again and again. UpdateMultiEndpoints reports the states of the pools too: if it
+// told the multiendpoints another state than the one the monitor waits to end, and the
+// connection then returned to that one, the monitor would sleep on while the multiendpoints
+// believe a state that is over. So UpdateMultiEndpoints ends the current wait of every
+// monitor (wake), and the monitor looks again.
 func (mc *monitoredConn) monitor(ctx context.Context) {
-	for {
-		currentState := mc.notify()
-		if !mc.conn.WaitForStateChange(ctx, currentState) {
-			break
-		}
+	for ctx.Err() == nil {
+		waitCtx, wake := context.WithCancel(ctx)
+		currentState := mc.notify(wake)
+		mc.conn.WaitForStateChange(waitCtx, currentState)
+		wake()
 	}
 }
 
@@ -404,6 +415,12 @@ func (gme *GCPMultiEndpoint) UpdateMultiEndpoints(meOpts *GCPMultiEndpointOption
 		s := mc.conn.GetState()
 		for _, me := range gme.mes {
 			me.SetEndpointAvailability(e, s == connectivity.Ready)
+		}
+	}
+	// The monitors look again: see monitor.
+	for _, mc := range gme.pools {
+		if mc.wake != nil {
+			mc.wake()
 		}
 	}
 	return nil
